@@ -481,6 +481,20 @@ func (w *worldA) checkEjections() {
 			// their order from the order in which they were recorded
 			order := w.decisionOrder(ej.step, wid)
 			out.Probe("ejection_checked")
+			// sanity of the estimate itself: every span weighs at least its own
+			// size, so a trace's estimated impact can never be below its data size
+			// (an estimate that is not refreshed when the trace grows would be)
+			for _, b := range before {
+				if b.Impact < b.DataSize {
+					out.Violate("C07", "impact_estimate_below_data_size", siteCollect, "worker %d: trace#%d holds %d bytes in %d spans but its estimated impact is %d", wid, w.traces[b.TraceID].idx, b.DataSize, b.Spans, b.Impact)
+				}
+			}
+			tt := w.tracesCfgTimeout()
+			upper := func(b collect.VerifTraceInfo) int {
+				// the documented estimate: size x (1 + 4 x age / TraceTimeout), age at most that of the trace
+				age := ej.at.Sub(b.Arrival)
+				return (int(4*age/tt) + 1) * b.DataSize
+			}
 			released := 0
 			remaining := map[string]bool{}
 			for _, b := range before {
@@ -496,6 +510,11 @@ func (w *worldA) checkEjections() {
 				me := info[d.traceID]
 				delete(remaining, d.traceID)
 				for r := range remaining {
+					// independent of the memoised value: a trace whose largest possible
+					// estimate is below another's smallest possible one must not go first
+					if upper(me) < info[r].DataSize {
+						out.Violate("C07", "not_heaviest_first", siteCollect, "worker %d ejected trace#%d (at most %d by the documented estimate) as number %d while trace#%d holding %d bytes stayed", wid, w.traces[d.traceID].idx, upper(me), k+1, w.traces[r].idx, info[r].DataSize)
+					}
 					if info[r].Impact > me.Impact {
 						out.Violate("C07", "not_heaviest_first", siteCollect, "worker %d ejected trace#%d (impact %d) as number %d while trace#%d with impact %d stayed", wid, w.traces[d.traceID].idx, me.Impact, k+1, w.traces[r].idx, info[r].Impact)
 					}
